@@ -55,6 +55,19 @@ N5  single-expression helper
     occurs exactly once in <expr>; <expr> binds no names (no lambda / comprehension / walrus); the module-level names <expr> uses are not rebound locally in
     the calling function; h is not recursive.
 
+N13 selector helper: a decision tree of returns
+        def pick(v, arr):                 undecorated module-level def, defined once; the body (after a docstring) consists of if/elif/else
+            if "a" in v.attrs:            statements and `return <expr>` only (guard clauses included), every path returns a value
+                return v.a
+            if arr.any(): return arr.min()
+            return 0
+        x = pick(da, conn)       /       T -= pick(da, conn)
+    ==> if "a" in da.attrs: x = da.a  elif conn.any(): x = conn.min()  else: x = 0        (for the augmented form: into a fresh local, then T -= <local>)
+    Side conditions: the arguments are names, constants or attribute chains; the helper's module-level names are not rebound in the caller; the helper
+    is not recursive and binds no names (no comprehension / lambda / walrus).  For the augmented form the helper is evaluated before the target is
+    loaded instead of after: equal unless the helper mutates the target, so it is applied only when the helper calls no mutating method (_MUTATORS,
+    fill, put, resize, itemset, partition) and contains no store of any kind.
+
 N6  helper that never returns
         def fail(x):                     every path of the body ends in `raise`, no `return` anywhere
             if x.a: raise E1(...)
@@ -1147,6 +1160,151 @@ def _inline_noreturn(tree):
     return done
 
 
+_ARRAY_MUTATORS = {"fill", "put", "resize", "itemset", "partition", "setflags", "byteswap", "setfield"}
+
+
+def _return_tree(body):
+    """body as a decision tree  ("ret", expr) | ("if", test, tree, tree)  when it consists of if/else and returns only and every path returns; else None"""
+    if not body:
+        return None
+    st = body[0]
+    if isinstance(st, ast.Return):
+        return ("ret", st.value) if st.value is not None else None   # anything after a return is dead
+    if isinstance(st, ast.If):
+        # if t: A else: B; rest   ==   t ? (A; rest) : (B; rest)
+        a = _return_tree(st.body + body[1:])
+        b = _return_tree(st.orelse + body[1:])
+        if a is None or b is None:
+            return None
+        return ("if", st.test, a, b)
+    return None
+
+
+def _tree_stmts(tree_, make):
+    if tree_[0] == "ret":
+        return [make(copy.deepcopy(tree_[1]))]
+    return [ast.If(test=copy.deepcopy(tree_[1]), body=_tree_stmts(tree_[2], make), orelse=_tree_stmts(tree_[3], make))]
+
+
+def _inline_selectors(tree):
+    """N13 (see the module docstring)."""
+    counts, sel = {}, {}
+    for st in tree.body:
+        if isinstance(st, ast.FunctionDef):
+            counts[st.name] = counts.get(st.name, 0) + 1
+    for st in tree.body:
+        if not isinstance(st, ast.FunctionDef) or counts[st.name] != 1 or st.decorator_list or st.args.vararg or st.args.kwarg or _protected(st.name):
+            continue
+        body = list(st.body)
+        if body and isinstance(body[0], ast.Expr) and isinstance(body[0].value, ast.Constant) and isinstance(body[0].value.value, str):
+            body = body[1:]
+        t = _return_tree(body)
+        if t is None or t[0] == "ret":
+            continue       # single-expression helpers are N5's
+        nodes = [x for b in body for x in ast.walk(b)]
+        if any(isinstance(x, (ast.Lambda, ast.NamedExpr, ast.Yield, ast.YieldFrom, ast.Await, ast.ListComp, ast.SetComp, ast.DictComp, ast.GeneratorExp)) for x in nodes):
+            continue
+        if any(isinstance(x, ast.Call) and isinstance(x.func, ast.Name) and x.func.id == st.name for x in nodes):
+            continue
+        quiet = not any(isinstance(x, ast.Call) and isinstance(x.func, ast.Attribute) and x.func.attr in (_MUTATORS | _ARRAY_MUTATORS) for x in nodes)
+        sel[st.name] = (st, t, quiet)
+    if not sel:
+        return 0
+    done = 0
+
+    def simple(a):
+        while isinstance(a, ast.Attribute):
+            a = a.value
+        return isinstance(a, (ast.Name, ast.Constant))
+
+    for fn in [n for n in ast.walk(tree) if isinstance(n, (ast.FunctionDef, ast.AsyncFunctionDef))]:
+        sc = _Scope()
+        for st in fn.body:
+            sc.visit(st)
+        local = set(sc.bind) | sc.bad | {a.arg for a in fn.args.posonlyargs + fn.args.args + fn.args.kwonlyargs} | ({fn.args.vararg.arg} if fn.args.vararg else set()) | ({fn.args.kwarg.arg} if fn.args.kwarg else set())
+        fresh = [0]
+
+        def expand(st):
+            nonlocal done
+            if isinstance(st, ast.Assign) and len(st.targets) == 1 and isinstance(st.targets[0], ast.Name):
+                call, mode = st.value, "assign"
+            elif isinstance(st, ast.AugAssign):
+                call, mode = st.value, "aug"
+            else:
+                return None
+            if not (isinstance(call, ast.Call) and isinstance(call.func, ast.Name) and call.func.id in sel and call.func.id not in local and call.func.id != fn.name):
+                return None
+            h, t, quiet = sel[call.func.id]
+            if mode == "aug" and not quiet:
+                return None
+            if any(isinstance(a, ast.Starred) for a in call.args) or any(k.arg is None for k in call.keywords):
+                return None
+            if not all(simple(a) for a in call.args) or not all(simple(k.value) for k in call.keywords):
+                return None
+            pos, kwonly = _params(h)
+            if len(call.args) > len(pos):
+                return None
+            bind = {prm.arg: a for prm, a in zip(pos, call.args)}
+            names = {a.arg for a in pos + kwonly}
+            for k in call.keywords:
+                if k.arg not in names or k.arg in bind:
+                    return None
+                bind[k.arg] = k.value
+            defaults = dict(zip([a.arg for a in pos][len(pos) - len(h.args.defaults):], h.args.defaults))
+            defaults.update({a.arg: d for a, d in zip(kwonly, h.args.kw_defaults) if d is not None})
+            for prm in names - set(bind):
+                if not isinstance(defaults.get(prm), ast.Constant):
+                    return None
+                bind[prm] = defaults[prm]
+            for x in (x for b in h.body for x in ast.walk(b)):
+                if isinstance(x, ast.Name) and x.id not in names and x.id in local:
+                    return None  # a module-level name of the helper is shadowed in the caller
+            if mode == "assign":
+                tgt = st.targets[0].id
+                # the target may be one of the arguments: it is assigned only at a leaf, after every test of that path was evaluated
+                mk = lambda e: ast.Assign(targets=[ast.Name(id=tgt, ctx=ast.Store())], value=e)
+                tail = []
+            else:
+                fresh[0] += 1
+                tgt = f"_uxsa_sel{fresh[0]}"
+                while tgt in local:
+                    fresh[0] += 1
+                    tgt = f"_uxsa_sel{fresh[0]}"
+                mk = lambda e: ast.Assign(targets=[ast.Name(id=tgt, ctx=ast.Store())], value=e)
+                tail = [ast.AugAssign(target=st.target, op=st.op, value=ast.Name(id=tgt, ctx=ast.Load()))]
+            sub = _ConstSubst(bind)
+            new = [sub.visit(x) for x in _tree_stmts(t, mk)] + tail
+            for x in new:
+                for y in ast.walk(x):
+                    ast.copy_location(y, st)
+            done += 1
+            _INLINED.append(call.func.id)
+            return new
+
+        class T(ast.NodeTransformer):
+            def _body(self_, stmts):
+                out = []
+                for st in stmts:
+                    if isinstance(st, (ast.FunctionDef, ast.AsyncFunctionDef, ast.ClassDef)):
+                        out.append(st)
+                        continue
+                    st = self_.generic_visit(st)
+                    rep = expand(st)
+                    out += rep if rep is not None else [st]
+                return out
+
+            def generic_visit(self_, node):
+                for fld in ("body", "orelse", "finalbody"):
+                    v = getattr(node, fld, None)
+                    if isinstance(v, list) and v and isinstance(v[0], ast.stmt):
+                        setattr(node, fld, self_._body(v))
+                for h_ in getattr(node, "handlers", []) or []:
+                    h_.body = self_._body(h_.body)
+                return node
+        T().generic_visit(fn)
+    return done
+
+
 def _fold_numeric_constants(tree):
     """N12: a module-level  NAME = <number>  (bound once in the module, no `global NAME` anywhere) read inside a function of the same module, where NAME is not a
     parameter or local of that function, is replaced by the number (a literal moved to a named constant reads like the literal)."""
@@ -1202,6 +1360,7 @@ def normalise(tree, relpath=None):
         if not k:
             break
     n_inlined = n_inlined0 + _inline_wrappers(tree)
+    n_sel = _inline_selectors(tree)
     tables = _module_tables(tree)
     n_unrolled = 0
     for fn in [n for n in ast.walk(tree) if isinstance(n, (ast.FunctionDef, ast.AsyncFunctionDef))]:
@@ -1227,4 +1386,4 @@ def normalise(tree, relpath=None):
     _Updates().visit(tree)
     n_upd = sum(1 for n in ast.walk(tree) if isinstance(n, ast.Assign)) - before
     ast.fix_missing_locations(tree)
-    return tree, {"aliases_inlined": n_alias, "update_keys_split": n_upd, "table_loops_unrolled": n_unrolled, "wrappers_inlined": n_inlined, "expression_helpers_inlined": n_expr, "noreturn_helpers_inlined": n_noret, "flags_inlined": n_flags, "dict_literals_propagated": n_dict, "any_all_expanded": aa.count, "getattr_setattr_folded": gs.count, "numeric_constants_folded": n_const, "boolean_constants_folded": fb.count, "inlined_helpers": sorted(set(_INLINED))}
+    return tree, {"aliases_inlined": n_alias, "update_keys_split": n_upd, "table_loops_unrolled": n_unrolled, "wrappers_inlined": n_inlined, "expression_helpers_inlined": n_expr, "noreturn_helpers_inlined": n_noret, "selector_helpers_inlined": n_sel, "flags_inlined": n_flags, "dict_literals_propagated": n_dict, "any_all_expanded": aa.count, "getattr_setattr_folded": gs.count, "numeric_constants_folded": n_const, "boolean_constants_folded": fb.count, "inlined_helpers": sorted(set(_INLINED))}
